@@ -116,8 +116,9 @@ K2_MAX_SITES = 12
 SWEEP_K2 = [(cls, mk, k) for cls in ("Signal", "AccSignal") for mk in MKINDS[cls] for k in range(K2_MAX_SITES)]
 # reads (generators and indirect reads count too) under an injected failure, from a cold and from a warm object
 SWEEP_K2_READS = [(cls, x, k) for cls, obs in (("Signal", OBS_SIG), ("AccSignal", OBS_ACC)) for x in obs
-                  if x in GROUP_OF for k in range(4)]
-SWEEP_NI = [(m, i, v) for m in sorted(CUSTOM_KW) for i in range(len(CUSTOM_KW[m])) for v in ("pair", "cluster") for _ in range(2)]
+                  if x in GROUP_OF for k in range(12)]
+SWEEP_NI = [(m, i, v) for m in sorted(CUSTOM_KW) for i in range(len(CUSTOM_KW[m])) for v in ("pair", "cluster") for _ in range(2)] + \
+           [("default-reads", n, v) for n in (1024, 2048, 4096, 8192) for v in ("pair", "cluster")]
 # A-B-change-A: a setting is replaced, something happens, and exactly the earlier setting is assigned again
 ABA_SETS = {"Signal": ["attr:smooth_fa_freqs", "attr:smooth_fa_frequencies", "gen_smooth"],
             "AccSignal": ["attr:smooth_fa_freqs", "gen_smooth", "attr:response_times", "gen_resp", "generate_resp", "resp_series"]}
@@ -151,6 +152,7 @@ class World(object):
         self.last_fault_party = None
         self.pending_recover = {}   # party -> fault kind awaiting a later successful op
         self.strict_fp = False
+        self.aftermath = 0
         self.custom = {}            # party -> cache groups filled by an explicit generator call with non-default arguments
         self.last_obs = {}          # party -> {observable: outcome at the end of the previous step}
         self.held = {}              # (party, setting) -> the array object the caller passed last time (it may pass it again)
@@ -174,7 +176,8 @@ class C04(Profile):
         from ..env import load_eqsig
         self.eqsig = load_eqsig()
         if not getattr(self, "no_seams", False):
-            seams.install_backend_seams()
+            # allocation failures can also arise *inside* the back ends (sdof, displacements, fns.frequency ...)
+            seams.install_backend_seams(all_modules=True)
 
     # ------------------------------------------------------------------------------------------
     def make_config(self, rng, tier, index):
@@ -223,7 +226,10 @@ class C04(Profile):
             cfg.update(run_class="sweep-k2-read", faults_on=True, sweep={"cls": cls, "state": [], "read": x, "site": k})
         elif index < len(SWEEP_STATE) + len(SWEEP_K2) + len(SWEEP_K2_READS) + len(SWEEP_NI):
             m, i, v = SWEEP_NI[index - len(SWEEP_STATE) - len(SWEEP_K2) - len(SWEEP_K2_READS)]
-            cfg.update(run_class="sweep-state", sweep={"cls": "AccSignal", "state": [], "ni": {"m": m, "kw": CUSTOM_KW[m][i], "variant": v}})
+            if m == "default-reads":
+                cfg.update(run_class="sweep-state", sweep={"cls": "AccSignal", "state": [], "big": {"n": i, "variant": v}})
+            else:
+                cfg.update(run_class="sweep-state", sweep={"cls": "AccSignal", "state": [], "ni": {"m": m, "kw": CUSTOM_KW[m][i], "variant": v}})
         elif index < len(SWEEP_STATE) + len(SWEEP_K2) + len(SWEEP_K2_READS) + len(SWEEP_NI) + len(SWEEP_ABA):
             cls, how, mk = SWEEP_ABA[index - len(SWEEP_STATE) - len(SWEEP_K2) - len(SWEEP_K2_READS) - len(SWEEP_NI)]
             cfg.update(run_class="sweep-state", sweep={"cls": cls, "state": [], "aba": {"how": how, "mk": mk}})
@@ -376,8 +382,19 @@ class C04(Profile):
 
     # ------------------------------------------------------------------------------------------
     def count_sites(self, world, op):
-        """How many fault sites would this operation call?  Executed on a deep copy of the world's
-        objects, so the real history is not disturbed.  Consumes no randomness."""
+        """How many fault sites would this operation call?  Executed on a deep copy of the world's objects *in a forked
+        child*, so that neither the objects of the history nor anything the library keeps at module level is disturbed
+        by the rehearsal (a memo filled by the rehearsal would change which sites the real operation reaches).
+        Consumes no randomness."""
+        from .. import kernel
+        try:
+            return int(kernel.isolated(self._count_sites_here, world, op))
+        except kernel.HarnessAbort:
+            raise
+        except Exception:  # noqa
+            return 0
+
+    def _count_sites_here(self, world, op):
         try:
             objs, clusters = copy.deepcopy((world.objs, world.clusters))
         except Exception:  # noqa
@@ -435,7 +452,11 @@ class C04(Profile):
             if pk:
                 st["faults"][pk]["recovered"] += 1
         self._model_update(world, op, out, fkind, kind)
+        if fkind:
+            world.aftermath = 3      # a failure may have left something behind at module level that fools a twin as well
         viol = self._check(world, op, out, step, kind, fkind, pre)
+        if world.aftermath > 0:
+            world.aftermath -= 1
         ev = out.digest() + "/" + codec.digest([np.asarray(o.values) for _, o in sorted(world.objs.items())])
         return ev, viol
 
@@ -655,7 +676,7 @@ class C04(Profile):
                 why = outcomes_agree(got, ref, rtol)
                 if why:
                     bad[x] = (why, got, ref)
-            if not moved and not bad and (cs + len(pname)) % 48 == 0:
+            if not moved and not bad and ((cs + len(pname)) % 48 == 0 or world.aftermath > 0):
                 v = self._clean_check(world, pname, obj, now, base, kind)
                 if v:
                     return v
@@ -923,6 +944,30 @@ class OpGen(object):
         rng, cfg = self.rng, self.cfg
         sw = cfg["sweep"]
         cls = sw["cls"]
+        if "big" in sw:
+            # two long records of equal length (work buffers pooled by length, thresholds on the length): every lazy
+            # quantity of A, then of B, then A again -- the non-interference invariant watches A while B is read
+            n, variant = sw["big"]["n"], sw["big"]["variant"]
+            small = {"smooth_fa_freqs": nd([0.5, 2.0, 8.0]), "response_times": nd([0.3, 1.0])}
+            rec = gen_record(rng, 256, kind="sines")
+
+            def long_record(shift):
+                return nd([rec[(i + shift) % 256] * (1.0 + 0.01 * ((i + shift) // 256)) for i in range(n)])
+            if variant == "cluster":
+                self.queue.append(lambda w: {"op": "newk", "p": "K0", "values": [long_record(0), long_record(17)], "dt": 0.01,
+                                             "kw": {"stypes": "acc", "master_index": 0, "resp_times": nd([0.3, 1.0])}})
+                a, b = "K0.0", "K0.1"
+            else:
+                self.queue.append(lambda w: {"op": "new", "p": "S0", "cls": "AccSignal", "values": long_record(0), "dt": 0.01, "kw": dict(small)})
+                self.queue.append(lambda w: {"op": "new", "p": "S1", "cls": "AccSignal", "values": long_record(17), "dt": 0.01, "kw": dict(small)})
+                a, b = "S0", "S1"
+            obs = ["velocity", "displacement", "fa_spectrum", "smooth_fa_spectrum", "pga", "pgv", "pgd", "s_a", "time"]
+            for who in (a, b, a):
+                for x in obs:
+                    self.queue.append(lambda w, who=who, x=x: {"op": "read", "p": who, "x": x})
+            self.queue.append(lambda w: self.g_mut(w, b, "add_constant"))
+            self.queue.append(lambda w: {"op": "read", "p": a, "x": "velocity"})
+            return
         if "aba" in sw:
             how, mk = sw["aba"]["how"], sw["aba"]["mk"]
             self.queue.append(lambda w: self.g_new("S0", cls))
